@@ -231,6 +231,9 @@ func runC11(c *eng.Ctx) {
 		c.Check(ok, "cursor partition = hash mod the stream's actual partition count", p.Pos(fn.Pos()), "hasher(key) % len(stream.GetPartitions())", "the cursors partition of a key is not computed modulo the number of partitions the cursors stream actually has (the configured number is ignored once the stream exists): after a restart with another cursors.stream.partitions setting cursors are looked up in the wrong partition and FetchCursor answers -1 for cursors that are stored")
 	}
 
+	c.Rule("R08.6", "K2")
+	ruleReverseReaderSurvivesReplacement(c)
+
 }
 
 func shortRef(r string) string {
